@@ -25,6 +25,7 @@ from bmc import Protocol  # noqa: E402
 import checks
 import workerloop  # noqa: E402
 import blockloop  # noqa: E402
+import spawnflow  # noqa: E402
 import replay as rp  # noqa: E402
 import validate as tv  # noqa: E402
 
@@ -122,6 +123,7 @@ def depth_obligations(pid, mir_text, info, add, violations, inconclusive):
     info["check_block"] = {}
     for name in ("bfs", "dfs"):
         res, binfo = blockloop.obligations(name, cbs[name], helpers=blockloop.find_helpers(mir_text, name))
+        res = res + blockloop.initial_depth(name, mir_text)
         binfo["mir_sha256"] = hashlib.sha256(cbs[name].encode()).hexdigest()[:12]
         info["check_block"][name] = binfo
         info["functions_encoded"].append(f"checker::{name}::check_block (MIR sha256 {binfo['mir_sha256']}, {binfo['blocks']} basic blocks, {binfo['round_paths']} paths per job, inner loops {binfo['inner_loops_havocked']} abstracted by havoc)")
@@ -259,6 +261,22 @@ def run(pid, tier, seed, replay_path=None):
         elif pid == "C12":
             worker_obligations(pid, mir_text, info, add, violations, inconclusive, only_observation=True)
             depth_obligations(pid, mir_text, info, add, violations, inconclusive)
+            checker_rs = open(os.path.join(d, "sr", "src", "checker.rs")).read()
+            info["spawn"] = {}
+            for name in ("bfs", "dfs"):
+                res, sinfo = spawnflow.obligations(name, mir_text, checker_rs)
+                info["spawn"][name] = sinfo
+                info["functions_encoded"].append(f"checker::{name} spawn() ({sinfo['blocks']} basic blocks, loops {sinfo['loops_havocked']} havocked, {sinfo['paths']} paths)")
+                seen_kinds = set()
+                for o in res:
+                    add(o["obligation"], o["result"], **({"witness": o["witness"]} if o.get("witness") else {}))
+                    kind = o["obligation"].split(": ", 2)[-1]
+                    if o["result"] == "sat":
+                        if kind not in seen_kinds:
+                            seen_kinds.add(kind)
+                            violations.append({"property": pid, "obligation": o["obligation"], "static": True, "witness": o.get("witness")})
+                    elif o["result"] != "unsat":
+                        inconclusive.append(o["obligation"] + ": " + o["result"])
             outs, n_paths = checks.static_timeout(bm)
             info["timeout_thread_paths"] = n_paths
             for o in outs:
@@ -808,6 +826,10 @@ def replay_static(d, pid, v):
             return _WORKER_REPLAYS[code]
         finally:
             os.remove(tp)
+    if " spawn: " in v["obligation"] and pid == "C12":
+        if "target_max_depth" in v["obligation"]:
+            return _integration_test(d, v, DEPTH_TEST, "verif_depth_limit", "VIOLATION depth limit")
+        return _integration_test(d, v, WORKER_EXIT_TEST, "verif_worker_exit", "VIOLATION worker left without a stop reason")
     if pid == "C13":
         return _integration_test(d, v, BFS_ORDER_TEST, "verif_bfs_order", "VIOLATION BFS order")
     if " check_block: " in v["obligation"]:
